@@ -389,6 +389,24 @@ def bounded(pr):
             del junk
             if got != ref and len(viol) < 3:
                 viol.append({'what': '%s %s after history %d (%s input): output text differs from a fresh process' % (name, opts, h, kind), 'replay': None})
+    # the same PATH NAME holding other content than the last time it was read in this process (a file rewritten in place)
+    d2 = tempfile.mkdtemp()
+    try:
+        same = os.path.join(d2, 'model.pdb')
+        for first, second in (('3SGB-subset', '1HPX'), ('1HPX', '3SGB-subset')):
+            ev += 1
+            classes.add('rewritten path')
+            open(same, 'w').write(''.join(native.pdb_lines(first)))
+            run.single(same, optargs=['-q'], write_pka=False)
+            open(same, 'w').write(''.join(native.pdb_lines(second)))
+            got = hashlib.sha256(bounded_text(run.single(same, optargs=['-q'], write_pka=False)).encode()).hexdigest()
+            want = hashlib.sha256(bounded_text(native.run_text(native.pdb_lines(second), [])).encode()).hexdigest()
+            if got != want and len(viol) < 3:
+                viol.append({'what': 'path %s read after it was rewritten in place (%s -> %s): result is not that of its present '
+                                     'content (stream input of the same text)' % (os.path.basename(same), first, second), 'replay': None})
+    finally:
+        import shutil
+        shutil.rmtree(d2, ignore_errors=True)
     os.unlink(alt_cfg)
     pr.bounded.append({'name': 'C03-monitor: same input after random in-process histories vs a fresh process (other cwd and hash seed)',
                        'evaluations': ev, 'distinct_nontrivial': len(classes), 'bound': '%d targets x %d histories' % (len(targets), n_hist),
